@@ -4,7 +4,7 @@ META = dict(
     engine="seq", level="model_checking",
     technique="explicit-state, level-synchronous BFS over Share/Deck/Store-time operation histories, replay-from-history on fresh real objects, "
               "canonical-state dedupe (time-translation invariant), reference model compared after every step",
-    text="All interleavings, to a stated depth, of value assignment, update / change / create in keyword, pair-list and dict form, item assignment and "
+    text="All interleavings, to depth 4 (quick) / 7 (thorough), of value assignment, update / change / create in keyword, pair-list and dict form, item assignment and "
          "deletion, pop / popitem / clear / setdefault / insert, every way of adding a field under an invalid name (leading underscore, leading digit, "
          "empty, trailing newline, name of an existing Data attribute), stampNow, store time advance, detaching and re-attaching the store, and deck "
          "push / pull / gulp(None) / gulp(x) / spew.  After every transition the real share (ordered fields incl. the raw attribute dict, stamp, deck, "
@@ -391,7 +391,7 @@ FUNCS.update(expand=expand, observe=observe_shard)
 
 def run():
     ck = core.Check("C19", "model_checking", META["technique"])
-    depth = 4 if core.TIER == "quick" else 6
+    depth = 4 if core.TIER == "quick" else 7
     core.use_repo()
     from ioflo.base import storing
     ns = fresh(storing)
